@@ -1,6 +1,6 @@
 /-
   Props/C11Incent — block processing never fails: x/streamer EndBlock and the x/incentives epoch hook
-  (over M-Incent, after fixes D1 79ac8ab6d, D2 47c6d7c68 and F4 2e8aa5677).
+  (over M-Incent, after fixes D1 79ac8ab6d, D2 47c6d7c68 and F4 64b101c36).
   Full statement: see Props/C11.  Here, for EVERY admissible history of M-Incent (locks, gauges,
   streams, sponsorship distributions, epoch boundaries, iteration limits from 1 up; `Admissible` = each
   op well-formed and no governance re-targeting of a half-served stream, which is a recorded known
